@@ -39,6 +39,10 @@ pub struct Cfg {
     pub scratch: PathBuf,
     pub workers: usize,
     pub verbose: bool,
+    /// Some((k, n)) = run only the cases whose index is congruent to k modulo n (sampling legs)
+    pub shard: Option<(u64, u64)>,
+    /// this process is an inner leg (e.g. under valgrind): no evidence / replay files, no coverage floors
+    pub leg: bool,
 }
 
 #[derive(Clone, Debug)]
@@ -124,7 +128,23 @@ thread_local! {
     static PANIC_LOC: std::cell::RefCell<Option<String>> = const { std::cell::RefCell::new(None) };
 }
 
+static PROCESS_START: std::sync::OnceLock<Instant> = std::sync::OnceLock::new();
+
+/// An inner leg stops taking new cases after VERIF_LEG_BUDGET_S seconds of process time, so that it
+/// ends by itself and reports what it covered.
+fn leg_deadline_passed(cfg: &Cfg) -> bool {
+    if !cfg.leg {
+        return false;
+    }
+    let start = *PROCESS_START.get_or_init(Instant::now);
+    match std::env::var("VERIF_LEG_BUDGET_S").ok().and_then(|s| s.parse::<u64>().ok()) {
+        Some(b) => start.elapsed() > Duration::from_secs(b),
+        None => false,
+    }
+}
+
 pub fn install_panic_hook() {
+    let _ = PROCESS_START.get_or_init(Instant::now);
     std::panic::set_hook(Box::new(|info| {
         let loc = info
             .location()
@@ -207,9 +227,18 @@ where
                                 if i >= n {
                                     break;
                                 }
+                                if let Some((k, m)) = cfg.shard {
+                                    if i % m != k {
+                                        continue;
+                                    }
+                                }
                                 i
                             }
                         };
+                        if leg_deadline_passed(&cfg) {
+                            stop.store(true, Ordering::Relaxed);
+                            break;
+                        }
                         if start.elapsed() > wall_budget {
                             let mut g = ev.lock().unwrap();
                             *g.inconclusive.entry("wall-budget-reached".into()).or_insert(0) += 1;
@@ -388,11 +417,11 @@ pub fn finish(cfg: &Cfg, mut ev: Ev, fin: Finish<'_>, wall: Duration) -> i32 {
 
     // coverage floors
     for k in &fin.required_hist {
-        if ev.hist.get(k).copied().unwrap_or(0) == 0 && cfg.replay.is_none() {
+        if ev.hist.get(k).copied().unwrap_or(0) == 0 && cfg.replay.is_none() && !cfg.leg {
             ev.broken.push(format!("coverage floor: nothing observed for '{k}'"));
         }
     }
-    if ev.evaluations < fin.min_evaluations && cfg.replay.is_none() {
+    if ev.evaluations < fin.min_evaluations && cfg.replay.is_none() && !cfg.leg {
         ev.broken.push(format!(
             "coverage floor: {} evaluations < required {}",
             ev.evaluations, fin.min_evaluations
@@ -437,7 +466,7 @@ pub fn finish(cfg: &Cfg, mut ev: Ev, fin: Finish<'_>, wall: Duration) -> i32 {
             "cases_with_this_signature" => vs.len(),
             "case" => desc.clone().unwrap_or(J::Null),
         };
-        if cfg.replay.is_none() {
+        if cfg.replay.is_none() && !cfg.leg {
             let _ = std::fs::write(root.join(&fname), render(&rep, Style::Pretty));
         }
         println!("VIOLATION property={} replay=/verif/{}", cfg.prop, fname);
@@ -481,7 +510,10 @@ pub fn finish(cfg: &Cfg, mut ev: Ev, fin: Finish<'_>, wall: Duration) -> i32 {
         "wall_s" => J::F((wall.as_secs_f64() * 100.0).round() / 100.0),
         "violations" => unknown as u64,
     };
-    if cfg.replay.is_none() {
+    if cfg.leg {
+        println!("LEG-SUMMARY cases={} evaluations={} unknown_violation_signatures={unknown} broken={}", ev.cases, ev.evaluations, ev.broken.len());
+    }
+    if cfg.replay.is_none() && !cfg.leg {
         let _ = std::fs::create_dir_all(root.join("evidence"));
         let p = root.join(format!("evidence/{}.json", cfg.prop));
         std::fs::write(&p, render(&evidence, Style::Pretty)).expect("write evidence");
